@@ -20,6 +20,7 @@
 From RM Require Import Model.EncPathSpec Model.HitObjectSpec Proofs.EncPathRT Proofs.EncPathImage Proofs.EncSlider Proofs.EncLineImage Proofs.EncMapImage.
 From RM Require Import Model.EncObjCarry Proofs.EncObjectsRT.
 From RM Require Import Proofs.TimingPointsValues Proofs.Enc2Values Proofs.Enc2Samples Proofs.Enc2Examples.
+From RM Require Import Model.EncTimingSpec Proofs.Enc2Timing.
 From RM Require Import Model.EncSpec Proofs.EncFmt Proofs.EncShape Proofs.EncSimple Proofs.EncImage Proofs.EncObjects Proofs.EncRound Proofs.EncTiming.
 From RM Require Import Gen.Generated.
 Open Scope Z_scope.
@@ -528,17 +529,44 @@ Theorem C04_timing_line_accepted :
 Proof. intros f64 f32 fi Hfmt time beat p tc H. exact (tp_line_accepted f64 f32 fi Hfmt time beat p tc H). Qed.
 Print Assumptions C04_timing_line_accepted.
 
+(* T04b for the [TimingPoints] section of decoded maps: every body line the encoder writes is
+   accepted by the decoder's field parser, whatever the General settings -- provided no sample
+   point collected from a hit object lies beyond the parse limit ([sample_times_ok]; its negation
+   is class D26 for spinners / holds and the new class D32 for sliders).  All other numbers written
+   are proved within the limits: clamped beat lengths, -100/sv for clamped sv, signatures, banks,
+   custom indices, volumes, effect flags, the times of timing / difficulty / effect points. *)
+Theorem C04_decoded_timing_lines_accepted :
+  forall dist events fmt_f64 fmt_f32 fmt_int, fmt_ok fmt_f64 fmt_f32 fmt_int ->
+  forall lines m c,
+  Forall no_lf_line lines -> decode_beatmap dist lines = Done m ->
+  enc_control_points dist events m = Done c -> sample_times_ok c = true ->
+  exists ls, enc_timing_points dist events m = Done (header_tok SecTimingPoints :: ls) /\
+             Forall (fun l => forall g, exists r, parse_tp_line g (render fmt_f64 fmt_f32 fmt_int l) = Some r) ls.
+Proof.
+  intros dist events f64 f32 fi Hfmt lines m c H1 H2 H3 H4.
+  exact (decoded_timing_lines_accepted dist events f64 f32 fi Hfmt lines m c H1 H2 H3 H4).
+Qed.
+Print Assumptions C04_decoded_timing_lines_accepted.
+
+Theorem C04_decoded_timing_records_within_limits :
+  forall dist events lines m c,
+  Forall no_lf_line lines -> decode_beatmap dist lines = Done m ->
+  enc_control_points dist events m = Done c -> sample_times_ok c = true ->
+  forallb wrec_ok (enc_records c) = true.
+Proof. exact decoded_enc_records_ok. Qed.
+Print Assumptions C04_decoded_timing_records_within_limits.
+
 (* ---------- what is not proved here (full statements kept visible) ----------
 
-   Timing-point lines, what is left [P]:
-     [tp_line_ok] for the lines that enc_timing_points actually writes: signature > 0, bank /
-     custom / volume / effect flags within i32 and the clamped beat length / slider velocity
-     follow from C12's value theorems; the TIMES do not: sample points collected from hit
-     objects sit at start + duration, which can leave the parse limit by rounding (side
-     condition exercised by the oracle).  parse_timing_points itself is total on sorted
-     control points (C13), so "accepted" = "parse_tp_line returns the record".  Which lines are
-     written, and that the section reads back as the timing points and timelines under explicit
-     side conditions, is in C02 (C02_timing_section_records, C02_timing_round_trip_partial).
+   Timing-point lines: MECHANISED for decoded maps (C04_decoded_timing_lines_accepted): every
+     written record satisfies [tp_line_ok] -- signature > 0, bank / custom / volume / effect flags
+     within i32, clamped beat length and -100/sv within the parse limits, the times of the map's
+     own control points within the limits -- EXCEPT for the times of sample points collected from
+     hit objects, which sit at start + duration and can leave the parse limit: class D26 (spinner /
+     hold, by rounding) and the new class D32 (slider: durations are not bounded by the format;
+     confirmed on the crate, probes/D32_probe).  parse_timing_points itself is total on sorted
+     control points (C13), so "accepted" = "parse_tp_line returns the record".  That the section
+     reads back as the timing points and timelines is in C02 (C02_timing_round_trip_decoded).
 
    Hit-object lines, what is left [P]:
      "every non-blank line of [HitObjects] is accepted for every decoded map outside the recorded
